@@ -631,6 +631,24 @@ func ruleC01Source(c *Ctx, docField string) {
 				}
 			}
 		}
+		// a value handed to the callback of a walk over the document store (wherever that walk lives)
+		for x := range sl {
+			if p, ok := x.(*ssa.Parameter); ok && p.Parent().Parent() != nil {
+				for _, b := range p.Parent().Parent().Blocks {
+					for _, ins := range b.Instrs {
+						if call, ok := ins.(*ssa.Call); ok {
+							if fld, ok := isSyncMapCall(call, "Range"); ok && fld == docField {
+								for _, a := range call.Call.Args {
+									if mc, ok := a.(*ssa.MakeClosure); ok && mc.Fn == ssa.Value(p.Parent()) {
+										return true, "document store (Range)"
+									}
+								}
+							}
+						}
+					}
+				}
+			}
+		}
 		// the change handler's running text, the opened text
 		for x := range sl {
 			if fieldAddrNamed(x, "Text") || fieldAddrNamed(x, "ContentChanges") {
